@@ -140,6 +140,10 @@ func (e *Engine) evalSpec(x *SExpr, env *SpecEnv) Value {
 		if v, ok := env.lookup(x.Val); ok {
 			return v
 		}
+		if x.Val == "csvfs" {
+			// the ghost file system of CSV snapshot files: view(csvfs) maps a file name to the rows the file holds
+			return VTerm{T: mkConst("csvfs", SRef), Typ: types.NewInterfaceType(nil, nil)}
+		}
 		unsup("spec: unknown identifier %q", x.Val)
 	case "unary":
 		a := term(e.evalSpec(x.Args[0], env))
@@ -584,6 +588,63 @@ func (e *Engine) evalSpecCall(x *SExpr, env *SpecEnv) Value {
 		// string concatenation (uninterpreted; strings.TrimSuffix is characterised through it)
 		vs := evalArgs()
 		return VTerm{T: mkApp("str_concat", SStr, term(vs[0]), term(vs[1])), Typ: types.Typ[types.String]}
+	case "sqlrs":
+		// sqlrs(stmt, args...): the result set of running the prepared statement with those arguments
+		vs := evalArgs()
+		ts := []*Term{term(vs[0])}
+		nm := "sql_rs"
+		for _, v := range vs[1:] {
+			ts = append(ts, term(v))
+			nm += "_" + sortTag(term(v).Sort)
+		}
+		return VTerm{T: mkApp(nm, SRef, ts...), Typ: types.NewInterfaceType(nil, nil)}
+	case "sqlnrows":
+		return VTerm{T: mkApp("sql_nrows", SInt, term(e.evalSpec(args[0], env))), Typ: intT}
+	case "sqlcolI", "sqlcolR", "sqlcolS":
+		vs := evalArgs()
+		so, ty := SInt, types.Type(intT)
+		switch name {
+		case "sqlcolR":
+			so, ty = SReal, types.Typ[types.Float64]
+		case "sqlcolS":
+			so, ty = SStr, types.Typ[types.String]
+		}
+		return VTerm{T: mkApp("sql_col_"+sortTag(so), so, term(vs[0]), term(vs[1]), term(vs[2])), Typ: ty}
+	case "sqlscanok":
+		vs := evalArgs()
+		return VTerm{T: mkEq(mkApp("sql_scanerr", SRef, term(vs[0]), term(vs[1])), mkConst("nil", SRef)), Typ: boolT}
+	case "sqlcur":
+		v := e.evalSpec(args[0], env).(VTerm)
+		return VTerm{T: env.st.getMem("sqlcur:"+v.T.String(), mkApp("sql_cur0", SInt, v.T)), Typ: intT}
+	case "csvdir":
+		// csvdir(M, base): the map asset name -> rows obtained from the ghost csv file system M by looking up the file
+		// <base>/<name>.csv (abstraction function of FileSystemRepository). Defining axioms are assumed per use; file
+		// names are taken to be plain (path_join injective in the file name, concatenation injective in its prefix) and
+		// a file that does not exist holds no rows
+		m, ok := e.evalSpec(args[0], env).(VMap)
+		if !ok || m.Len == nil {
+			unsup("spec: csvdir expects the ghost csv file system view")
+		}
+		base := term(e.evalSpec(args[1], env))
+		r := VMap{Has: mkApp("csvdir_has", m.Has.Sort, m.Has, base), Val: mkApp("csvdir_val", m.Val.Sort, m.Val, base), Len: mkApp("csvdir_len", m.Len.Sort, m.Len, base), Key: m.Key, Elem: m.Elem}
+		e.nfresh++
+		n := mkVar(fmt.Sprintf("n$%d", e.nfresh), SStr)
+		x := mkVar(fmt.Sprintf("x$%d", e.nfresh), SStr)
+		csv := mkConst("str_"+sanitize(".csv"), SStr)
+		file := mkApp("str_concat", SStr, n, csv)
+		path := mkApp("path_join", SStr, base, file)
+		st := env.st
+		st.assume(mkForall([]*Term{n}, mkEq(mkSelect(r.Has, n), mkSelect(m.Has, path)), [][]*Term{{mkSelect(r.Has, n)}}))
+		st.assume(mkForall([]*Term{n}, mkEq(mkSelect(r.Val, n), mkSelect(m.Val, path)), [][]*Term{{mkSelect(r.Val, n)}}))
+		st.assume(mkForall([]*Term{n}, mkEq(mkSelect(r.Len, n), mkSelect(m.Len, path)), [][]*Term{{mkSelect(r.Len, n)}}))
+		st.assume(mkForall([]*Term{n}, mkEq(mkApp("str_prefix_of", SStr, file, csv), n), [][]*Term{{file}}))
+		st.assume(mkForall([]*Term{x}, mkEq(mkApp("path_file", SStr, mkApp("path_join", SStr, base, x)), x), [][]*Term{{mkApp("path_join", SStr, base, x)}}))
+		st.assume(mkForall([]*Term{x}, mkImplies(mkNot(mkSelect(m.Has, x)), mkEq(mkSelect(m.Len, x), mkInt(0))), [][]*Term{{mkSelect(m.Len, x)}}))
+		e.notes["assumed: asset names are plain file names (path_join(base, .) and (. + \".csv\") injective); a csv file that does not exist holds no rows"] = true
+		return r
+	case "pathjoin":
+		vs := evalArgs()
+		return VTerm{T: mkApp("path_join", SStr, term(vs[0]), term(vs[1])), Typ: types.Typ[types.String]}
 	case "direntry":
 		// ghost: the directory named by the first argument has an entry with that file name (os.ReadDir)
 		vs := evalArgs()
